@@ -38,3 +38,20 @@ Definition vec_new (T : ty) : cont := mkCont DANGLING 0 (if sz T =? 0 then USIZE
 (* Box<[T]>::into_vec(): the same block, capacity = length *)
 Definition box_into_vec (T : ty) (c : cont) : cont :=
   mkCont (cptr c) (clen c) (if sz T =? 0 then USIZE_MAX else clen c).
+
+(* ---- a Vec<T> together with its contents (pod_collect_to_vec builds and fills one) ---- *)
+Record bvec : Type := mkBV { bv_len : N; bv_bytes : list N }.
+Definition bvec_empty : bvec := mkBV 0 [].                          (* Vec::new() *)
+(* vec![T::zeroed(); n]: n all-zero elements; std panics ("capacity overflow") above isize::MAX bytes *)
+Definition vec_zeroed (T : ty) (n : N) : outcome bvec :=
+  if n * sz T <=? ISIZE_MAX then Ret (mkBV n (repeat 0 (N.to_nat (n * sz T)))) else Panic W_overflow.
+(* &mut v[..]: the vector's buffer as a slice; std places it at a non-null address aligned for T (the
+   model takes the least one).  The buffer is not part of the flat memory [mem]: its contents are [bv_bytes] *)
+Definition bvec_slice (T : ty) (v : bvec) : slice :=
+  mkSlice (mkPtr (al T) (bv_len v * sz T)) (bv_len v).
+(* view[..n].copy_from_slice(src), [view] being the byte view of the whole vector: the index panics
+   when n exceeds the view, copy_from_slice when the lengths differ *)
+Definition bvec_copy_prefix (E : env) (v : bvec) (n : N) (src : slice) : outcome bvec :=
+  if negb (n <=? N.of_nat (List.length (bv_bytes v))) then Panic W_index
+  else if negb (slen src =? n) then Panic W_assert
+  else Ret (mkBV (bv_len v) (read_bytes (mem E) (addr (sptr src)) n ++ skipn (N.to_nat n) (bv_bytes v))).
